@@ -284,6 +284,73 @@ def discard(sc):
             'secs10': int((time.monotonic() - t0) * 10)}
 
 
+def _progress(res, sc):
+    res = dict(res, scenario=sc)
+    with open(os.path.join(SCRATCH, 'RESULT.tmp'), 'w') as fh:
+        json.dump(res, fh)
+    os.replace(os.path.join(SCRATCH, 'RESULT.tmp'), os.path.join(SCRATCH, 'RESULT'))
+
+
+def budget(sc):
+    """restart budget of a real pool with its real supervisor thread.  A worker is killed while it
+    runs a task (never while idle: an idle worker holds the task queue's reader lock); its next
+    `arm` replacements die in their initializer, before they touch the queue.  Progress is written
+    down as it happens: RestartFreqExceeded takes the host down."""
+    maxr = sc['maxr']
+    d = tempfile.mkdtemp(prefix='s-', dir=SCRATCH)
+    counter = os.path.join(d, 'deaths')
+    with open(counter, 'w') as fh:
+        fh.write('0')
+    pool = bp.Pool(1, max_restarts=maxr, max_restart_freq=120, initializer=targets.die_at_start,
+                   initargs=(counter,), lost_worker_timeout=0.5)
+    time.sleep(2.5)                       # past the supervisor's start-up burst phase
+    res = {'kind': 'budget', 'init_deaths': 0, 'phases': 0, 'done': False, 'job_ok': False}
+    _progress(res, sc)
+
+    def left():
+        try:
+            return int(open(counter).read().strip() or 0)
+        except (OSError, ValueError):
+            return -1
+
+    def phase(arm):
+        """busy worker killed (1 budget step), then `arm` replacements die at start"""
+        mark = os.path.join(d, 'pid%d' % res['phases'])
+        h = pool.apply_async(targets.announce_and_block, (mark, 120))
+        victim = _wait_file(mark)
+        if victim is None:
+            return False
+        time.sleep(0.3)                   # its acceptance has been processed (count starts afresh)
+        with open(counter, 'w') as fh:
+            fh.write(str(arm))
+        os.kill(victim, signal.SIGKILL)
+        t0 = time.monotonic()
+        while time.monotonic() - t0 < (3 + 1.5 * arm) * SCALE + 6:
+            n = left()
+            if n >= 0 and arm - n != res.get('_seen', 0):
+                res['_seen'] = arm - n
+                res['init_deaths'] = res.get('_base', 0) + arm - n
+                _progress({k: v for k, v in res.items() if not k.startswith('_')}, sc)
+            if n == 0 and pool._pool and pool._pool[0]._is_alive() and pool._pool[0].pid != victim:
+                time.sleep(1.0)           # one more supervision pass: the survivor stays
+                break
+            time.sleep(0.05)
+        res['_base'] = res['init_deaths']
+        res['_seen'] = 0
+        res['phases'] += 1
+        _outcome(h, 3)
+        return True
+    if sc['variant'] == 'exceed':
+        phase(maxr)                       # 1 + maxr abnormal exits since the last acceptance: one too many
+    else:
+        phase(maxr - 1)                   # exactly the budget ...
+        res['job_ok'] = _outcome(pool.apply_async(targets.pid_task, (1,)), 10)[0] == 'ok'
+        phase(maxr - 1)                   # ... and once more after a job was accepted
+        res['job_ok'] = res['job_ok'] and _outcome(pool.apply_async(targets.pid_task, (2,)), 10)[0] == 'ok'
+    res['done'] = True
+    return {k: v for k, v in res.items() if not k.startswith('_')}
+
+
 def recycle(sc):
     n = sc['quota']
     N = sc.get('items', 6)
@@ -322,7 +389,7 @@ def recycle(sc):
 def main():
     sc = json.loads(sys.argv[1])
     fn = {'loss': loss, 'hard': hard, 'hard_map': hard_map, 'soft': soft, 'sendfail': sendfail,
-          'recycle': recycle, 'idleloss': idleloss, 'discard': discard}[sc['kind']]
+          'recycle': recycle, 'idleloss': idleloss, 'discard': discard, 'budget': budget}[sc['kind']]
     res = fn(sc)
     res['scenario'] = sc
     with open(os.path.join(SCRATCH, 'RESULT.tmp'), 'w') as fh:
